@@ -107,11 +107,11 @@ def run():
         for i, p in enumerate(p1):
             jobs.append(dict(name='one%d' % i, progs=[p], mode='bounded',
                              bound=2 if quick else 3, maxcp=6,
-                             limit=300 if quick else 6000))
+                             limit=300 if quick else 6000, seed=chk.seed))
         for i, pq in enumerate(pairs):
             jobs.append(dict(name='two%d' % i, progs=pq, mode='bounded',
                              bound=1 if quick else 2, maxcp=6,
-                             limit=150 if quick else 3000))
+                             limit=150 if quick else 3000, seed=chk.seed))
             jobs.append(dict(name='rnd%d' % i, progs=pq, mode='random',
                              nrandom=20 if quick else 200, seed=chk.seed,
                              maxcp=8))
